@@ -248,18 +248,37 @@ func (k *checker) recvFieldsRead(fn *ssa.Function, v ssa.Value, depth int) map[*
 	if len(fn.Params) == 0 {
 		return out
 	}
-	recv := fn.Params[0]
+	recvP := fn.Params[0]
+	// the receiver itself, or the receiver read back from the cell it lives in once a function literal captures it
+	isRecv := func(v ssa.Value) bool {
+		if v == ssa.Value(recvP) {
+			return true
+		}
+		if ld, ok := v.(*ssa.UnOp); ok && ld.Op == token.MUL {
+			if cell, ok := ld.X.(*ssa.Alloc); ok {
+				n, hit := 0, false
+				for _, r := range ssau.Refs(cell) {
+					if st, isSt := r.(*ssa.Store); isSt && st.Addr == ssa.Value(cell) {
+						n++
+						hit = hit || st.Val == ssa.Value(recvP)
+					}
+				}
+				return n == 1 && hit
+			}
+		}
+		return false
+	}
 	for _, x := range collect(v, func(y ssa.Value) bool {
 		switch z := y.(type) {
 		case *ssa.FieldAddr:
-			return z.X == recv
+			return isRecv(z.X)
 		case *ssa.Call:
 			for _, a := range z.Common().Args {
-				if a == recv {
+				if isRecv(a) {
 					return true
 				}
 			}
-			if z.Common().IsInvoke() && z.Common().Value == recv {
+			if z.Common().IsInvoke() && isRecv(z.Common().Value) {
 				return true
 			}
 		}
